@@ -220,7 +220,11 @@ Step ==
                                  ELSE [c |-> "diverged", s |-> i, f |-> d, dbg |-> <<>>]
            ELSE IF ev.ev = "api" THEN
                LET fresh == IF Len(ev.rl) > 0 THEN ev.rl[Len(ev.rl)].id ELSE ""
-                   r == PluginApi(ps, ev, fresh)
+                   r0 == PluginApi(ps, ev, fresh)
+                   \* borders touching exactly: the code may refuse (float round-off)
+                   r1 == PluginApiT(ps, ev, fresh, 1)
+                   r == IF r0.status # ev.status /\ ev.cmd = "update" /\ r1.status = ev.status
+                        THEN r1 ELSE r0
                    d == IF ev.status = -1 THEN "api.raised"
                         ELSE IF r.status # ev.status THEN "api.status"
                         ELSE IF ~NotesSame(r.notes, ev.notes) THEN "notifications"
